@@ -15,13 +15,13 @@ CHECKS = {
         ref="DESIGN.md section 3 / C01",
     ),
     "C02": dict(
-        text="Generated-input search with an independent reference: legal programs rendered under drawn layouts must parse to the independently rendered S-expression; token-level near misses are decided by an independent Earley recognizer (accept/reject, first offending token) and an independent recursive-descent tree builder. Every valid program is also handed, under the drawn layout, to parse_jaqal_string and the circuit's meaning compared with the reference.  Exact at token level; below token level see C16.",
+        text="Generated-input search with an independent reference: legal programs rendered under drawn layouts must parse to the independently rendered S-expression; token-level near misses (single-token edits, exchanges of whole statements, a balanced bracket pair put around a run of statements; identifiers with a keyword as dotted component) are decided by an independent Earley recognizer (accept/reject, first offending token) and an independent recursive-descent tree builder. Every valid program is also handed, under the drawn layout, to parse_jaqal_string and the circuit's meaning compared with the reference.  Exact at token level; below token level see C16.",
         note=TRUST + "vlib/refgrammar.py (grammar transcribed from the property and the Jaqal spec; Earley vs recursive descent cross-checked by the self-test); the two rule-level rejections (register size <= 0, import..as) only need JaqalParseError.",
         tech="property-based testing: differential against an independent Earley recognizer + metamorphic layout invariance",
         ref="DESIGN.md section 3 / C02",
     ),
     "C04": dict(
-        text="Generated-input search against a reference semantics: for programs with macro call graphs in every block context, expand_macros (both preserve modes) must leave no macro call, reproduce the reference call-by-substitution meaning (subcircuits, counts, kinds) and carry header data over; the expansion is read a second time in an environment that gives every let another value (a let handed to a macro must still be a reference); prebuilt wrong-arity calls at drawn positions must raise JaqalError.",
+        text="Generated-input search against a reference semantics: for programs with macro call graphs in every block context, expand_macros (both preserve modes) must leave no macro call, reproduce the reference call-by-substitution meaning (subcircuits, counts, kinds) and carry header data over; the expansion is read a second time in an environment that gives every let another value (a let handed to a macro must still be a reference); prebuilt wrong-arity calls at drawn positions must raise JaqalError; macro calls built inside builder blocks that are evaluated on their own (keyed by placeholder parameter names) must expand like the same program read from its text.",
         note=TRUST + "programs are valid by construction; cases where parser and reference already disagree are C07's and skipped here (counted).",
         tech="property-based testing: reference-model oracle (call-by-substitution meaning) + structural invariants",
         ref="DESIGN.md section 3 / C04",
@@ -99,7 +99,7 @@ CHECKS = {
         ref="DESIGN.md section 3 / C11",
     ),
     "C14": dict(
-        text="Generated-input search with single-fault injection: every boundary/out-of-range index (literal, let, override, macro argument), out-of-source alias slice, non-register indexing/aliasing, bad register size, duplicate definition, unknown gate / wrong arity / wrong kind (also after macro substitution) is injected into a valid program and the documented pipeline is driven stage by stage: rejection with JaqalError no later than the stage where the value becomes known, never a result, never another exception; the fault-free twin must pass and mean what the reference says; gate-definition precedence (injected > later import > earlier import, incl. repeated imports and a gate with the same signature but another unitary in both modules) is enumerated exhaustively with on-disk pulse modules; definition faults also by removal (a called macro deleted / its parameter list changed).",
+        text="Generated-input search with single-fault injection: every boundary/out-of-range index (literal, let, override, macro argument), out-of-source alias slice, non-register indexing/aliasing, bad register size, duplicate definition, unknown gate / wrong arity / wrong kind (also after macro substitution) is injected into a valid program and the documented pipeline is driven stage by stage: rejection with JaqalError no later than the stage where the value becomes known, never a result, never another exception; the fault-free twin must pass and mean what the reference says; gate-definition precedence (injected > later import > earlier import, incl. repeated imports and a gate with the same signature but another unitary in both modules) is enumerated exhaustively with on-disk pulse modules; definition faults also by removal (a called macro deleted / its parameter list changed); call faults (arity, kind, unknown gate) inside CircuitBuilder loop / macro bodies that the builder evaluates on their own, in circuits with and without lets, must be refused by run_jaqal_circuit at the latest.",
         note=TRUST + "vlib/pulses/moda.py, modb.py (on-disk pulse modules); the stage at which a value 'becomes known' is computed by the reference from what the failing check depends on (literal / let / macro argument).",
         tech="property-based testing: fault injection with a reference validity predicate, staged-pipeline oracle, fault-free twins",
         ref="DESIGN.md section 3 / C14",
